@@ -23,7 +23,7 @@ FOCUS = {
     "C10": dict(modes=["solve", "solve", "min", "max"], ca=1),
     "C17": dict(modes=["solve", "solve", "min", "max"], ca=None, limits=True),
     "C16": dict(modes=["solve", "min"], ca=None),
-    "C19": dict(modes=["solve"], ca=None),
+    "C19": dict(modes=["solve", "solve", "min"], ca=None, heights=[1, 2, 2, 3, 3, 4, 5]),
 }
 SIZES = {"quick": 2400, "thorough": 60000}
 
@@ -55,7 +55,7 @@ def systematic_items(tier: str, seed: int, focus: str):
             ca = knobs["ca"] if knobs.get("ca") is not None else (j // 20) % 2
             cfgs = [(ca, (j // 5) % 4, j % 5)]
         for ca, vh, dh in cfgs:
-            cfg = {"ca": ca, "vh": vh, "dh": dh, "height": 64}
+            cfg = {"ca": ca, "vh": vh, "dh": dh, "height": 64 if not knobs.get("heights") else knobs["heights"][(i + dh) % len(knobs["heights"])]}
             if vh == 3:
                 cfg["vparams"] = _cost_tables(r, P)
             if dh == 4:
@@ -103,6 +103,8 @@ def _random_items(tier: str, seed: int, focus: str, n: int | None = None):
                         if c["dh"] in (0, 1, 2) and r.random() < 0.7:
                             c["dh"] = 3
             for cfg in cfgs:
+                if knobs.get("heights"):
+                    cfg["height"] = r.choice(knobs["heights"])
                 mode = r.choice(knobs["modes"])
                 vars_ = [None]
                 if mode != "solve":
